@@ -17,8 +17,8 @@ from harness import xmlobs
 from harness.tables import walk
 
 PID = "C07"
-NAMES = ["a", "b", "item", "para", "el.dot", "el-dash", "el_us", "n2", "title", "eml"]
-PREFIXES = ["p", "q", "x-y", "ns1", "xsi", "s"]
+NAMES = ["a", "b", "item", "para", "el.dot", "el-dash", "el_us", "n2", "title", "eml", "relev\u00e9", "\u540d\u524d", "\u00e9"]      # XML-legal names are not ASCII only
+PREFIXES = ["p", "q", "x-y", "ns1", "xsi", "s", "m\u00e9"]
 URIS = ["urn:one", "urn:two", "http://example.org/ns#x", "http://u/?a=1&b=2", "urn:x:it's", "http://u/p?q='1'&r=(2)",
         "http://www.w3.org/2001/XMLSchema-instance", "https://eml.ecoinformatics.org/eml-2.2.0"]   # valid URI references (lxml refuses others)
 SPECIALS = ["<", ">", "&", '"', "'", "]]>", "é", "漢字", "😀", "&amp;", "&#38;", "<!--", "-->", "<?x?>", "\\", "\x85", " ", "�", "a b",
@@ -75,13 +75,13 @@ def rtree(rnd, size, eml=False):
             for _ in range(rnd.choice([0, 0, 1, 2])):
                 if not n.nsmap:
                     break
-                local = rnd.choice(["type", "ref", "n"])
+                local = rnd.choice(["type", "ref", "n", "cl\u00e9"])
                 if local in used:
                     continue
                 used.add(local)
                 n.add_extras(rnd.choice(list(n.nsmap)) + ":" + local, rvalue(rnd, attr=True))
         for _ in range(rnd.choice([0, 0, 1, 2, 3])):
-            n.add_attribute(rnd.choice(["id", "scope", "system", "n", "a.b", "lang"]), rvalue(rnd, attr=True))
+            n.add_attribute(rnd.choice(["id", "scope", "system", "n", "a.b", "lang", "na\u00efve", "\u5c5e\u6027"]), rvalue(rnd, attr=True))
     if eml:
         for n in nodes:        # the documented workaround treats these spellings specially: outside the quantifier
             if n.content is not None and any(x in n.content for x in ("&amp;", "&lt;", "&gt;", "<para>", "</para>")):
